@@ -59,6 +59,23 @@ MISSED_AT_FIRST = {
  "C13-8": "only positive out-of-range redirect types were enumerated; negative ones added (late rejection allowed, success or another error is not)",
  "C15-7": "the destroy family had no fork mode; added (the forked child destroys its copy and lives on)",
  "C18-8": "no start under a failing allocation or with unconvertible input was enumerated for the Windows code; 'fault' mode added (k-th allocation fails, invalid UTF-8): no process may be created, a surviving start must pass exactly what was asked",
+ # round 6
+ "C02-9": "an empty start-up input (size 0, data given) was not enumerated; added to the stream family",
+ "C03-9": "no program was missing under the PARENT's directory while present under the child's; a caller's directory /x without the relative programs added (simulated and real file tree)",
+ "C03-10": "parent environment entries a shell would not create (no '=', leading '=') were not enumerated; added",
+ "C04-9": "a failed start was always followed by another start, never by destroy directly; added to the restart family",
+ "C05-10": "the forked child opened nothing of its own before destroying its copy of the handle; it now does, and the descriptors must survive (fchild[7]); fchild is attributed per component",
+ "C06-10": "detected in tens of thousands of scripts, but every instance first tried for confirmation owed the stale errno to an EARLIER script of its batch; errno is now cleared at the start of every script and confirmation candidates are spread over the group",
+ "C07-9": "caught only as a data race under C20; races in reproc_stop / parse_stop_actions are attributed to C07 too, threads family under C07",
+ "C12-10": "no relative redirect path together with a child working directory from a directory too deep to chdir back into; added (the caller's directory afterwards is compared); getcwd(NULL, n) was an unsupported form of the simulated kernel - supported now, and unsupported forms are infrastructure errors instead of verdicts",
+ "C14-9": "the memory error shows in the env family (deep directories), which C14 did not run; added",
+ "C15-9": "deadlines were a few ticks; a deadline an hour away (beyond 2^31 microseconds) added to the destroy family",
+ "C15-10": "the destroy family always piped stdin/stdout and assumed the caller's standard descriptors open; a variant with nothing piped added, and the family is also replayed by a caller without stdin/stdout",
+ "C18-9": "the stub converted bytes to UTF-16 units one to one, so bytes and units never differed; real UTF-8 decoding in the stub, two-byte sequences in the enumerations, WinCmdLine decodes likewise",
+ "C19-9": "the mock never answered 'interrupted'; -4 added to the C return values (a wrapper that retries shows as a different result)",
+ "C19-10": "conversions were always used at once; a reproc::arguments held while its source container is overwritten and cleared added",
+ "C11-10": "NOT CAUGHT: the change lists /proc/self/fd with the raw getdents64 system call; syscall() is outside the seam (the check reports an infrastructure error, exit 2, no verdict) and no configuration has the > 168 open descriptors it needs",
+ "C18-10": "NOT CAUGHT: needs another thread changing the parent's environment block between two snapshots inside one start; the threaded mode of the Windows driver gives every thread its own parent block",
 }
 
 
